@@ -29,6 +29,15 @@ def isOutputKind : DefKind → Bool
   | .scalar | .object | .interface | .union | .enum => true
   | .inputObject => false
 
+def anyKind : DefKind → Bool := fun _ => true
+
+/-- what a field of a definition of kind `k` may hold: output types on objects and interfaces, input
+    types on input objects (other kinds have no fields in any parsed document; only resolution is asked) -/
+def fieldPosition : DefKind → DefKind → Bool
+  | .object | .interface => isOutputKind
+  | .inputObject => isInputKind
+  | _ => anyKind
+
 def reserved : Name → Bool
   | 95 :: 95 :: _ => true
   | _ => false
@@ -102,7 +111,7 @@ def TypeSystem.directiveUses (ts : TypeSystem) : List (Directive × Bytes × Opt
     d.fields.flatMap (fun f =>
       f.dirs.map (·, (if d.kind = .inputObject then str "INPUT_FIELD_DEFINITION" else str "FIELD_DEFINITION"), none) ++
       f.args.flatMap (fun a => a.dirs.map (·, str "ARGUMENT_DEFINITION", none))) ++
-    d.enumValues.flatMap (fun v => v.dirs.map (·, str "ENUM_VALUE", none))) ++
+    (if d.kind = .enum then d.enumValues else []).flatMap (fun v => v.dirs.map (·, str "ENUM_VALUE", none))) ++
   ts.schemaDefs.flatMap (fun s => s.dirs.map (·, str "SCHEMA", none)) ++
   ts.directives.flatMap (fun dd => dd.args.flatMap (fun a => a.dirs.map (·, str "ARGUMENT_DEFINITION", some dd.name)))
 
@@ -125,8 +134,7 @@ def uniqueFieldNames (ts : TypeSystem) : Bool := ts.types.all fun d => pairwiseD
 
 /-- S: every field type exists; output positions hold output types, input fields hold input types -/
 def fieldTypesOK (ts : TypeSystem) : Bool :=
-  ts.types.all fun d => d.fields.all fun f =>
-    ts.typeIs f.type.name (if d.kind = .inputObject then isInputKind else isOutputKind)
+  ts.types.all fun d => d.fields.all fun f => ts.typeIs f.type.name (fieldPosition d.kind)
 
 /-- S: every argument (of a field or of a directive definition) has an existing input type -/
 def argTypesOK (ts : TypeSystem) : Bool := ts.argDefs.all fun a => ts.typeIs a.type.name isInputKind
@@ -320,8 +328,6 @@ instance (sd : SchemaDoc) : Decidable (WellFormed sd) := decidable_of_iff _ (wfB
 
 /- ------------------------------------------------------------------ predicates on a loaded schema -/
 
-def anyKind : DefKind → Bool := fun _ => true
-
 /-- `n` resolves in `s.types` to a definition whose kind satisfies `p` -/
 def typeIs (s : Schema) (n : Name) (p : DefKind → Bool) : Bool :=
   match s.types.lookup n with
@@ -332,13 +338,6 @@ def directiveIs (s : Schema) (d : Directive) (loc : Bytes) : Bool :=
   match s.directives.lookup d.name with
   | some dd => dd.locations.contains loc
   | none => false
-
-/-- what a field of a definition of kind `k` may hold: output types on objects and interfaces, input
-    types on input objects (other kinds have no fields in any parsed document; only resolution is asked) -/
-def fieldPosition : DefKind → DefKind → Bool
-  | .object | .interface => isOutputKind
-  | .inputObject => isInputKind
-  | _ => anyKind
 
 /-- field types resolve; output types on objects and interfaces, input types on input objects -/
 def ClosedFieldTypes (s : Schema) : Prop :=
